@@ -87,8 +87,31 @@ DICT_KINDS["str-any"] = {
 }
 
 
+# explicitly given AnyFields that carry validators: what is stored is what the validators return
+DICT_KINDS["anyv-anyv"] = {
+    "keys": ["a", "A", "b"],
+    "vals": [1, -2, 3],
+    "knorm": lambda k: k.lower(),
+    "vnorm": lambda v: None if v is None else abs(v),
+    "invalid_val": 13,
+    "probe": (("Z", -7), ("z", 7)),
+}
+
+
+def _any_key(cfg, k):
+    return k.lower()
+
+
+def _any_val(cfg, v):
+    if v == 13:
+        raise ValueError("unlucky")
+    return abs(v)
+
+
 def _dict_field(kind="str-int"):
-    from cincoconfig import DictField, StringField
+    from cincoconfig import DictField, StringField, AnyField
+    if kind == "anyv-anyv":
+        return DictField(key_field=AnyField(validator=_any_key), value_field=AnyField(validator=_any_val))
     if kind == "str-any":
         return DictField(key_field=StringField(transform_case="lower", transform_strip=True, max_len=3))
     return _dict_field_int()
@@ -202,7 +225,7 @@ def list_ops(kind):
     for i in (0, 1, -1, 99):
         for v in raw[:2]:
             ops.append(["setitem", i, v])
-    for sl in ([0, 1, None], [1, None, None], [None, 0, None], [None, None, 2], [5, None, None]):
+    for sl in ([0, 1, None], [1, None, None], [None, 0, None], [None, None, 2], [5, None, None], [None, None, -1], [None, None, -2], [-2, None, -2], [-1, 0, -1]):
         for shape, it in _iterables(contents):
             ops.append(["setslice", sl, shape, it])
         ops.append(["delslice", sl])
@@ -502,7 +525,7 @@ def model_states(container, kind, maxlen):
 def bounds(tier):
     return {"list_kinds": ["int", "str", "float", "scale"] if tier == "thorough" else ["int", "str", "scale"],
             "list_maxlen": {"int": 5 if tier == "thorough" else 3, "str": 6 if tier == "thorough" else 3, "float": 4, "scale": 2},
-            "dict_kinds": ["str-int", "str-any"], "dict_maxlen": 3 if tier == "thorough" else 2}
+            "dict_kinds": ["str-int", "str-any", "anyv-anyv"], "dict_maxlen": 3 if tier == "thorough" else 2}
 
 
 def jobs(tier):
